@@ -10,6 +10,7 @@ import (
 	"time"
 
 	"github.com/Comcast/sheens/core"
+	"github.com/Comcast/sheens/interpreters/ecmascript"
 	"github.com/Comcast/sheens/match"
 	"github.com/Comcast/sheens/verifrt/vh"
 )
@@ -256,6 +257,157 @@ func c11Run(cs c11Case) (out [][2]string) {
 	return
 }
 
+// ---- bystander family: cancellation must not wait for somebody else's execution ------------------------
+
+// holdCtx: the context of a long-running "holder" execution.  It reports its first tick, counts ticks, and
+// gives up (cancels itself) after holderLimit ticks so that a blocked victim is eventually released.
+type holdCtx struct {
+	context.Context
+	cancel  context.CancelFunc
+	started chan struct{}
+	once    sync.Once
+	ticks   int64
+	GaveUp  int32
+}
+
+const holderLimit = 10000000
+
+func (h *holdCtx) Value(key interface{}) interface{} {
+	if s, ok := key.(string); ok && s == "tick" {
+		n := atomic.AddInt64(&h.ticks, 1)
+		h.once.Do(func() { close(h.started) })
+		if n == holderLimit {
+			atomic.StoreInt32(&h.GaveUp, 1)
+			h.cancel()
+		}
+		return n
+	}
+	return h.Context.Value(key)
+}
+
+type c11ByCase struct {
+	Kind   string `json:"bystander_kind"` // exec-source | exec-compiled | walk-shared-spec
+	Victim string `json:"victim"`         // cancelled | expired | tick | deadline
+}
+
+const loopSrc = `while (true) { _.ctx.Value("tick"); }
+return _.bindings;`
+
+// c11Bystander: while one execution is busy (its context is never cancelled), a second execution on the
+// same interpreter / compiled program / compiled spec whose context is cancelled or expires must stop
+// while the first is still running.  Progress is measured in the holder's ticks, not in time.
+func c11Bystander(cs c11ByCase) (out [][2]string) {
+	interp := ecmascript.NewInterpreter()
+	var compiled interface{}
+	var spec *core.Spec
+	switch cs.Kind {
+	case "exec-compiled":
+		x, err := interp.Compile(context.Background(), loopSrc)
+		if err != nil {
+			return [][2]string{{"compile-failed", err.Error()}}
+		}
+		compiled = x
+	case "walk-shared-spec":
+		sp, err := c11Spec(c11Case{Shape: "while", Ticks: true, Where: "action", Routing: "none"})
+		if err != nil {
+			return [][2]string{{"compile-failed", err.Error()}}
+		}
+		spec = sp
+	}
+	run := func(ctx context.Context) (string, bool, string) {
+		var errText string
+		pn, pm, _ := vh.Trap(func() {
+			if spec != nil {
+				w, err := spec.Walk(ctx, &core.State{NodeName: "start", Bs: match.NewBindings()}, []interface{}{map[string]interface{}{"go": 1.0}}, &core.Control{Limit: 10}, nil)
+				if err != nil {
+					errText = err.Error()
+				} else if to := w.To(); to != nil {
+					if s, ok := to.Bs["error"].(string); ok {
+						errText = s
+					}
+				}
+				return
+			}
+			_, err := interp.Exec(ctx, match.NewBindings(), nil, loopSrc, compiled)
+			if err != nil {
+				errText = err.Error()
+			}
+		})
+		return errText, pn, pm
+	}
+	before := goroutineIDs()
+	hb, hcancel := context.WithCancel(context.Background())
+	h := &holdCtx{Context: hb, cancel: hcancel, started: make(chan struct{})}
+	hdone := make(chan struct{})
+	go func() { defer close(hdone); run(h) }()
+	select {
+	case <-h.started:
+	case <-time.After(60 * time.Second):
+		hcancel()
+		return [][2]string{{"harness-holder-did-not-start", "the holder execution made no tick within 60 s"}}
+	}
+	var vb context.Context
+	var vcancel context.CancelFunc
+	switch cs.Victim {
+	case "expired":
+		vb, vcancel = context.WithDeadline(context.Background(), time.Now().Add(-time.Second))
+	case "deadline":
+		vb, vcancel = context.WithTimeout(context.Background(), 5*time.Millisecond)
+	default:
+		vb, vcancel = context.WithCancel(context.Background())
+	}
+	v := &c11Ctx{Context: vb, cancel: vcancel}
+	switch cs.Victim {
+	case "cancelled":
+		vcancel()
+	case "tick":
+		v.cancelAt = 2
+	}
+	vdone := make(chan struct{})
+	var verr string
+	var vpanic bool
+	var vpm string
+	go func() { defer close(vdone); verr, vpanic, vpm = run(v) }()
+	select {
+	case <-vdone:
+	case <-hdone:
+		// the holder gave up (or ended) first
+		<-vdone
+	}
+	gaveUp := atomic.LoadInt32(&h.GaveUp) == 1
+	hcancel()
+	<-hdone
+	vcancel()
+	switch {
+	case gaveUp:
+		out = append(out, [2]string{"cancellation-waits-for-another-execution", fmt.Sprintf("an execution whose context was %s did not stop while another execution (%s) was running: that one made %d ticks before the harness gave up", cs.Victim, cs.Kind, holderLimit)})
+	case vpanic:
+		out = append(out, [2]string{"panic", vpm})
+	case atomic.LoadInt32(&v.Overrun) == 1:
+		out = append(out, [2]string{"not-interrupted-after-context-done", "the cancelled execution kept ticking"})
+	case !strings.Contains(verr, "timeout"):
+		out = append(out, [2]string{"error-is-not-the-timeout-error", fmt.Sprintf("the cancelled execution ended with error %q", verr)})
+	}
+	deadline := time.Now().Add(10 * time.Second)
+	for {
+		leaked := 0
+		for id := range goroutineIDs() {
+			if !before[id] {
+				leaked++
+			}
+		}
+		if leaked == 0 {
+			break
+		}
+		if time.Now().After(deadline) {
+			out = append(out, [2]string{"goroutine-outlives-the-call", fmt.Sprintf("%d goroutine(s) started during the calls are still alive 10 s after they returned", leaked)})
+			break
+		}
+		time.Sleep(2 * time.Millisecond)
+	}
+	return
+}
+
 // C11: action timeouts are enforced.
 func C11(c *vh.Ctx) {
 	one := func(cs c11Case) {
@@ -268,7 +420,20 @@ func C11(c *vh.Ctx) {
 			c.Violation(fmt.Sprintf("C11/%s/%s-%s/mode-%s/parent-%s", v[0], cs.Where, cs.Shape, cs.Mode, cs.Parent), fmt.Sprintf("%+v: %s", cs, v[1]), cs)
 		}
 	}
+	by := func(cs c11ByCase) {
+		c.InFlight(cs)
+		c.Eval()
+		c.Nontrivial()
+		for _, v := range c11Bystander(cs) {
+			c.Violation(fmt.Sprintf("C11/%s/bystander-%s/victim-%s", v[0], cs.Kind, cs.Victim), fmt.Sprintf("%+v: %s", cs, v[1]), cs)
+		}
+	}
 	if c.Replay != "" {
+		var bc c11ByCase
+		if c.LoadReplay(&bc) == nil && bc.Kind != "" {
+			by(bc)
+			return
+		}
 		var cs c11Case
 		if c.LoadReplay(&cs) == nil {
 			one(cs)
@@ -282,8 +447,16 @@ func C11(c *vh.Ctx) {
 	}
 	c.Bound("cancel_at_tick_max", K)
 	c.Bound("deadlines_ms", deadlines)
-	c.Rule("script shapes {while(true), counting for, unbounded recursion, array push, string concatenation, property read/write, nested calls in a loop}, with and without a harness tick in the loop body, as action and as guard x cancellation {context already cancelled, deadline already expired, cancel delivered at tick k for k=1..K (with and without a far deadline in the context's ancestry), real deadlines} x error routing {none, ActionErrorNode, ActionErrorBranches} x n in {1,2,4} concurrent executions with independent contexts; oracle: the walk returns (90 s horizon), the script makes no more than a (very large) number of ticks after its context is done, the result is the timeout error routed like any action error, and every goroutine started during the call is gone afterwards (10 s grace). 'Promptly' in milliseconds is not decided.")
+	c.Rule("script shapes {while(true), counting for, unbounded recursion, array push, string concatenation, property read/write, nested calls in a loop}, with and without a harness tick in the loop body, as action and as guard x cancellation {context already cancelled, deadline already expired, cancel delivered at tick k for k=1..K (with and without a far deadline in the context's ancestry), real deadlines} x error routing {none, ActionErrorNode, ActionErrorBranches} x n in {1,2,4} concurrent executions with independent contexts; oracle: the walk returns (90 s horizon), the script makes no more than a (very large) number of ticks after its context is done, the result is the timeout error routed like any action error, and every goroutine started during the call is gone afterwards (10 s grace). Bystander family: while one execution keeps running under a context that is never cancelled, a second execution on the same interpreter (source text compiled by Exec itself, or one shared compiled program) or on the same compiled spec, whose context is already cancelled / already expired / cancelled at its second tick / expires after 5 ms, must stop while the first is still running (the first gives up after 10^7 ticks, which is then a violation). 'Promptly' in milliseconds is not decided.")
 	var idx uint64
+	for _, kind := range []string{"exec-source", "exec-compiled", "walk-shared-spec"} {
+		for _, victim := range []string{"cancelled", "expired", "tick", "deadline"} {
+			idx++
+			if c.Mine(idx) && !c.Expired() {
+				by(c11ByCase{Kind: kind, Victim: victim})
+			}
+		}
+	}
 	for _, shape := range c11ShapeOrder {
 		for _, ticks := range []bool{true, false} {
 			for _, where := range []string{"action", "guard"} {
